@@ -173,6 +173,7 @@ pub const REACH: &[&str] = &[
     "text_empty",          // 27
     "jq_eval",             // 28 evaluator-level client ran a line/column program
     "jq_eval_panics_identically_on_fresh_clone", // 29
+    "text_wide_low_bits",  // 30 text length / line count >= 512 with >= 257 lines (Elias-Fano low width >= 9)
 ];
 const R_LC_FIRST: usize = 0;
 const R_LC_REPEAT: usize = 1;
@@ -203,6 +204,7 @@ const R_CR: usize = 26;
 const R_EMPTY: usize = 27;
 const R_JQ: usize = 28;
 const R_JQ_PANIC: usize = 29;
+const R_WIDE: usize = 30;
 
 pub const FAULTS: &[&str] = &["restart", "fork", "out_of_range"];
 const F_RESTART: usize = 0;
@@ -226,7 +228,46 @@ fn gen_line_body(rng: &mut Rng, out: &mut Vec<u8>) {
     }
 }
 
+/// Hundreds of tiny lines plus one enormous line (a minified blob inside a document): the
+/// Elias-Fano low width grows (>= 9 bits) while hundreds of line starts share one high
+/// bucket across several 256-element select samples.
+fn gen_text_blob(rng: &mut Rng) -> Vec<u8> {
+    let n_small = rng.urange(257, 1500);
+    let blob = (n_small * rng.urange(520, 1100)).min(1_500_000);
+    let blob_at = match rng.below(3) {
+        0 => 0,
+        1 => n_small,
+        _ => rng.usize_below(n_small + 1),
+    };
+    let nl: &[u8] = match rng.below(4) {
+        0 => b"\r\n",
+        1 => b"\r",
+        _ => b"\n",
+    };
+    let mut text = Vec::with_capacity(blob + n_small * 3 + 8);
+    for i in 0..=n_small {
+        if i == blob_at {
+            text.resize(text.len() + blob, b'x');
+            text.extend_from_slice(nl);
+        }
+        if i < n_small {
+            let k = rng.urange(0, 2);
+            for _ in 0..k {
+                text.push(b'y');
+            }
+            text.extend_from_slice(nl);
+        }
+    }
+    if rng.chance(1, 2) {
+        text.push(b'z');
+    }
+    text
+}
+
 pub fn gen_text(rng: &mut Rng, tier: Tier) -> Vec<u8> {
+    if rng.chance(1, 150) {
+        return gen_text_blob(rng);
+    }
     let shape = rng.weighted(&[3, 4, 4, 25, 20, 12, 12, 8, 6, 2]);
     let n_lines = match shape {
         0 => 0,
@@ -868,6 +909,7 @@ impl Scenario for C12 {
             "text_cr_only_break",
             "text_empty",
             "jq_eval",
+            "text_wide_low_bits",
         ]
     }
 
@@ -901,6 +943,9 @@ impl Scenario for C12 {
         }
         if m.starts.len() >= 256 {
             obs.reach.hit(R_BIG);
+        }
+        if m.starts.len() >= 257 && m.len / m.starts.len() as u64 >= 512 {
+            obs.reach.hit(R_WIDE);
         }
         if text.is_empty() {
             obs.reach.hit(R_EMPTY);
